@@ -54,6 +54,7 @@ type caseJ struct {
 	Taint []string `json:"taint"`
 	Rules []string `json:"rules"`
 	Eq    bool     `json:"eq"`
+	Dem   string   `json:"demand"`
 }
 
 func (cs *caseJ) program() string {
@@ -77,7 +78,7 @@ func (cs *caseJ) key() string {
 }
 
 // The taint tags of Rewrite.tla, each a known (unrepaired) defect of the optimizer.
-var taintTags = []string{"lift-sort-reverse", "lift-sort-nulls", "lift-stateful-expr", "join-dir-nulls", "fork-sortkey", "stale-sortkey", "join-lockstep", "pushdown-error", "merge-filters-error"}
+var taintTags = []string{"lift-sort-reverse", "lift-sort-nulls", "lift-stateful-expr", "join-dir-nulls", "fork-sortkey", "stale-sortkey", "join-lockstep", "pushdown-error", "merge-filters-error", "pass-placeholder-panic", "sortdir-null-missing"}
 
 // The rules of Rewrite.tla (non-vacuity: each must fire in some exported case).
 var ruleNames = []string{"merge-filters", "remove-pass", "lift-summarize", "lift-sort-new-merge", "lift-sort-under-merge",
@@ -111,6 +112,8 @@ type harness struct {
 	checked        int
 	planChecked    int
 	lockstepSkips  int
+	demandPruned   int // cases whose inferred demand is a proper field list (and equals the spec's)
+	nviol          int
 	lockstepRun    map[string]bool // the join-lockstep instances that are run in the current pass
 
 	corpusChecked, corpusSkipErr, corpusSkipOrder, corpusSkipNondet int
@@ -278,6 +281,13 @@ func (h *harness) evalCase(r *runner, cs *caseJ, batch int) {
 		}
 		w.O, w.OErr = O.Rows, errStr(O.Err)
 	}
+	if O.Err != nil && hasTaint(cs, "pass-placeholder-panic") && strings.Contains(O.Err.Error(), "Duplicate op value") {
+		h.mu.Lock()
+		h.taintObserved["pass-placeholder-panic"]++
+		h.mu.Unlock()
+		c.Violate("taint:pass-placeholder-panic", fmt.Sprintf("`%s` runs as analyzed but the optimizer panics: %v", prog, O.Err), w)
+		return
+	}
 	if O.Err != nil {
 		c.Violate("optimized-plan-fails:"+kindsOf(cs.Ops), fmt.Sprintf("`%s` runs as analyzed but the optimized plan fails: %v", prog, O.Err), w)
 		return
@@ -289,6 +299,13 @@ func (h *harness) evalCase(r *runner, cs *caseJ, batch int) {
 		h.mu.Unlock()
 		if O.Canon != cs.Plan {
 			h.drift("plan: `%s` sk=%q: optimizer produced [%s], Rewrite.tla [%s]", prog, cs.Sk, O.Canon, cs.Plan)
+		}
+		if O.Dem != cs.Dem {
+			h.drift("demand: `%s`: InferDemandSeqOut gives %q for the source of [%s], Rewrite.tla %q", prog, O.Dem, O.Canon, cs.Dem)
+		} else if O.Dem != "*" {
+			h.mu.Lock()
+			h.demandPruned++
+			h.mu.Unlock()
 		}
 	}
 	// (2) bind the reference semantics: U vs Sem(p)
@@ -342,7 +359,7 @@ func (h *harness) evalCase(r *runner, cs *caseJ, batch int) {
 			match = sameBag(U.Rows, O.Rows) // only the order is affected
 		case "lift-stateful-expr", "join-dir-nulls", "pushdown-error", "merge-filters-error":
 			match = sameBag(eO, cs.Opt.S) // exactly the result the transcribed (wrong) rule predicts
-		case "fork-sortkey", "stale-sortkey":
+		case "fork-sortkey", "stale-sortkey", "sortdir-null-missing":
 			match = true // streaming release on keys that are not contiguous: groups are split, schedule dependent
 		}
 		if match {
@@ -355,6 +372,15 @@ func (h *harness) evalCase(r *runner, cs *caseJ, batch int) {
 	}
 	if sig == "" {
 		sig = "opt-differs:" + kindsOf(cs.Ops) + ":" + strings.SplitN(mode, ":", 2)[0]
+		// one replay file per distinct signature; keep the report readable
+		h.mu.Lock()
+		h.nviol++
+		over := c.Violations() >= 12
+		h.mu.Unlock()
+		if over {
+			c.Add("violating_cases_not_listed", 1)
+			return
+		}
 	}
 	c.Violate(sig, fmt.Sprintf("`%s` (declared sort key %q) over %v: as analyzed %v, optimized %v: %s; optimized plan: %s",
 		prog, cs.Sk, cs.Input, short(U.Rows), short(O.Rows), why, O.Canon), w)
@@ -440,7 +466,7 @@ func run(c *core.Ctx) error {
 	// extended alphabet) are independent; run the two TLC processes side by side.
 	simCfg, simNum, simDepth := "Rewrite.sim.cfg", 40, 5
 	if !c.Quick() {
-		simCfg, simNum = "Rewrite.simthorough.cfg", 2500
+		simCfg, simNum = "Rewrite.simthorough.cfg", 500
 	}
 	t0 := time.Now()
 	var cases []caseJ
@@ -525,6 +551,7 @@ func run(c *core.Ctx) error {
 	c.Set("verdicts", h.checked)
 	c.Set("undetermined_cases_skipped", h.undetermined)
 	c.Set("plans_compared_with_rewrite_spec", h.planChecked)
+	c.Set("demands_pruning_fields_compared", h.demandPruned)
 	c.Set("rules_fired", h.ruleSeen)
 	c.Set("taint_predicted_nonequivalent", h.taintPredicted)
 	c.Set("taint_observed_on_real_code", h.taintObserved)
@@ -540,8 +567,8 @@ func run(c *core.Ctx) error {
 	}
 	c.Set("known_hang_instances_skipped", h.lockstepSkips)
 	for _, t := range taintTags {
-		if t == "join-lockstep" {
-			continue // a hang is not expressible in Sem; witnessed on the real code instead
+		if t == "join-lockstep" || t == "pass-placeholder-panic" {
+			continue // a hang / a crash of the optimizer is not expressible in Sem; witnessed on the real code instead
 		}
 		if h.taintPredicted[t] == 0 {
 			c.Inconclusive("vacuous: taint %q is never needed (no exported case where the spec predicts non-equivalence under it)", t)
